@@ -9,6 +9,7 @@ use vstd::prelude::*;
 use std::ops::Deref;
 
 //@@ INCLUDE conv_types.inc.rs
+//@@ INCLUDE conv_imports_stub.inc.rs
 
 verus! {
 
@@ -28,16 +29,21 @@ pub mod function { pub mod python {
 /// what convert_node returns for (ast, state, ctx): Some(core) = Ok(core), None = Err.
 /// A-IMPORTS-INERT: the produced Core does not depend on the contents of `Imports`.
 pub uninterp spec fn conv(ast: ASTTy, state: State, ctx: Context) -> Option<Core>;
+/// abstract view of the import table: `from <module> import <name>` is registered.
+/// A-EXT: every callee that receives the table only ever adds to it (monotone).
+pub uninterp spec fn imp_has_from(i: Imports, module: Seq<char>, name: Seq<char>) -> bool;
 pub uninterp spec fn convvec(asts: Seq<ASTTy>, state: State, ctx: Context) -> Option<Seq<Core>>;
 
 #[verifier::external_body]
 pub fn convert_node(ast: &ASTTy, imp: &mut Imports, state: &State, ctx: &Context) -> (r: GenResult)
     ensures match conv(*ast, *state, *ctx) { Some(c) => r == Ok::<Core, Box<UnimplementedErr>>(c), None => r is Err },
+        forall|m: Seq<char>, n: Seq<char>| imp_has_from(*old(imp), m, n) ==> imp_has_from(*final(imp), m, n),
 { unimplemented!() }
 
 #[verifier::external_body]
 pub fn convert_vec(node_vec: &[ASTTy], imp: &mut Imports, state: &State, ctx: &Context) -> (r: GenResult<Vec<Core>>)
     ensures match convvec(node_vec@, *state, *ctx) { Some(v) => r is Ok && r->Ok_0@ == v, None => r is Err },
+        forall|m: Seq<char>, n: Seq<char>| imp_has_from(*old(imp), m, n) ==> imp_has_from(*final(imp), m, n),
 { unimplemented!() }
 
 impl UnimplementedErr {
@@ -48,16 +54,19 @@ impl UnimplementedErr {
 pub trait ToPy { fn to_py(&self, imp: &mut Imports) -> Core; }
 impl ToPy for Name {
     #[verifier::external_body]
-    fn to_py(&self, imp: &mut Imports) -> Core { unimplemented!() }
+    fn to_py(&self, imp: &mut Imports) -> (r: Core) ensures forall|m: Seq<char>, n: Seq<char>| imp_has_from(*old(imp), m, n) ==> imp_has_from(*final(imp), m, n) { unimplemented!() }
 }
 impl ToPy for ASTTy {
     #[verifier::external_body]
-    fn to_py(&self, imp: &mut Imports) -> Core { unimplemented!() }
+    fn to_py(&self, imp: &mut Imports) -> (r: Core) ensures forall|m: Seq<char>, n: Seq<char>| imp_has_from(*old(imp), m, n) ==> imp_has_from(*final(imp), m, n) { unimplemented!() }
 }
 
 impl Imports {
     #[verifier::external_body]
-    pub fn add_from_import(&mut self, from: &str, import: &str) { unimplemented!() }
+    pub fn add_from_import(&mut self, from: &str, import: &str)
+        ensures imp_has_from(*final(self), from@, import@),
+            forall|m: Seq<char>, n: Seq<char>| imp_has_from(*old(self), m, n) ==> imp_has_from(*final(self), m, n),
+    { unimplemented!() }
 }
 
 pub uninterp spec fn fun_op_of(lit: Seq<char>) -> Option<CoreFunOp>;
@@ -121,6 +130,16 @@ pub open spec fn fundef_post(ast: ASTTy, state: State, ctx: Context, c: Core) ->
             &&& (body is None ==> core_body(c) == Some(Core::Pass))
             &&& core_fun_args(c) == convvec(args@, state, ctx)
         },
+        _ => true,
+    }
+}
+
+/// C16: a function emitted with the `abstractmethod` decorator has `from abc import abstractmethod`
+/// registered by the time it is returned
+pub open spec fn abstract_post(ast: ASTTy, state: State, c: Core, imp: Imports) -> bool {
+    match (ast.node, c) {
+        (NodeTy::FunDef { .. }, Core::FunDef { dec, id, arg, ty, body }) =>
+            dec@.len() > 0 ==> (dec@.len() == 1 && dec@[0]@ == "abstractmethod"@ && imp_has_from(imp, "abc"@, "abstractmethod"@)),
         _ => true,
     }
 }
@@ -210,6 +229,8 @@ impl State {
     ensures
         r matches Ok(c) ==> fundef_post(*ast, *state, *ctx, c),                  //# implicit_return_keyed_on_declared_type [C11,C01]
         r matches Ok(c) ==> fundef_ty_post(*ast, *state, c),                     //# annotate_gates_only_the_annotation [C11]
+        r matches Ok(c) ==> abstract_post(*ast, *state, c, *final(imp)),         //# abstractmethod_import_registered [C16]
+        forall|m: Seq<char>, n: Seq<char>| imp_has_from(*old(imp), m, n) ==> imp_has_from(*final(imp), m, n),   //# imports_only_grow [C16]
 //@@ END
 
 } // verus!
